@@ -92,9 +92,9 @@ type Program struct {
 func counter() []byte {
 	a := &Asm{}
 	a.Push1(0).Op(SLOAD).Op(CALLVALUE).Op(ADD).Push1(1).Op(ADD) // v
-	a.Op(DUP1).Push1(0).Op(SSTORE)                               // slot0 = v
-	a.Op(DUP1).Push1(0).Op(MSTORE)                               // mem[0] = v
-	a.Op(CALLER).Push1(32).Push1(0).Op(LOG1)                     // log1(mem[0..32], topic caller)
+	a.Op(DUP1).Push1(0).Op(SSTORE)                              // slot0 = v
+	a.Op(DUP1).Push1(0).Op(MSTORE)                              // mem[0] = v
+	a.Op(CALLER).Push1(32).Push1(0).Op(LOG1)                    // log1(mem[0..32], topic caller)
 	a.Push1(32).Push1(0).Op(RETURN)
 	return a.B
 }
